@@ -165,8 +165,11 @@ class Interp:
         if isinstance(v, VSet):
             return VSet(z3.Const(self.ctx.namer(name), v.z.sort()), v.elem)
         if isinstance(v, VMap):
-            return VMap(z3.Const(self.ctx.namer(name + "_p"), v.present.sort()),
-                        z3.Const(self.ctx.namer(name + "_v"), v.val.sort()), v.kt, v.vt)
+            nm = VMap(z3.Const(self.ctx.namer(name + "_p"), v.present.sort()),
+                      z3.Const(self.ctx.namer(name + "_v"), v.val.sort()), v.kt, v.vt)
+            if getattr(v, "default_empty", False):
+                nm.default_empty = True
+            return nm
         if isinstance(v, VOpt):
             return VOpt(z3.Bool(self.ctx.namer(name + "_isnone")), self.fresh_like(v.inner, name))
         if isinstance(v, VJson):
@@ -292,7 +295,8 @@ class Interp:
                 return z3.BoolVal(False)
             return a.z == b.z
         if isinstance(a, VObj) and isinstance(b, VObj):
-            return z3.BoolVal(a is b)
+            # identity; a snapshot (old(...), at_entry(...)) of an object keeps its oid
+            return z3.BoolVal(a is b or a.oid == b.oid)
         if isinstance(a, VDict) and isinstance(b, VDict):
             if set(a.d) != set(b.d):
                 return z3.BoolVal(False)
@@ -333,7 +337,7 @@ class Interp:
         if isinstance(a, VOpaque) and isinstance(b, VOpaque):
             return self.eq(a, b)
         if isinstance(a, VObj) or isinstance(b, VObj):
-            return z3.BoolVal(a is b)
+            return z3.BoolVal(a is b or (isinstance(a, VObj) and isinstance(b, VObj) and a.oid == b.oid))
         return self.eq(a, b)
 
     # ------------------------------------------------------------------ statements
@@ -486,6 +490,14 @@ class Interp:
                 self.delitem(o, k)
             elif isinstance(t, ast.Name):
                 fr.locals.pop(t.id, None)
+            elif isinstance(t, ast.Attribute):
+                # del obj.attr: the instance attribute disappears (a later read falls back to the class)
+                o = self.force(self.eval(t.value, fr))
+                if not isinstance(o, VObj):
+                    raise OutOfSubset("del attribute of a non-object")
+                if t.attr not in o.fields:
+                    self.raise_("AttributeError", VStr(t.attr))
+                del o.fields[t.attr]
             else:
                 raise OutOfSubset("del target")
 
@@ -973,6 +985,9 @@ class Interp:
                     c2 = self.base_classdef(c2)
             if attr == "__name__":
                 return VStr(o.name)
+            h = self.reg.ext_models.get(f"classattr:{o.name}.{attr}")
+            if h is not None:
+                return h(self)       # e.g. zope IFoo.providedBy, modelled by the property module
             raise OutOfSubset(f"class attribute {o.name}.{attr}")
         if isinstance(o, VFunc) and attr == "__name__":
             return VStr(o.name or "f")
@@ -1469,6 +1484,16 @@ class Interp:
             return o.d[ck]
         if isinstance(o, VMap):
             kz = to_z3(k, o.kt)
+            if getattr(o, "default_empty", False) and o.vt.kind in ("seq", "list", "deque"):
+                # collections.defaultdict(deque/list).__getitem__: a missing key is inserted with an empty value
+                cur = z3.If(z3.Select(o.present, kz), z3.Select(o.val, kz), z3.Empty(sort_of(o.vt)))
+                if self.spec_mode:
+                    return from_z3(cur, o.vt)
+                o.present = z3.Store(o.present, kz, True)
+                o.val = z3.Store(o.val, kz, cur)
+                r = from_z3(cur, o.vt)
+                r.origin = (o, kz)       # element holder: mutations are written back (see models.call_method)
+                return r
             if not self.spec_mode and self.ctx.branch(z3.Not(z3.Select(o.present, kz)), "keyerror"):
                 self.raise_("KeyError", k)
             return from_z3(z3.Select(o.val, kz), o.vt)
@@ -1802,6 +1827,7 @@ class Interp:
             m = self.find_method(f.cls, "__call__")
             if m is not None:
                 return self.call_func(VFunc(m, f, None, "__call__"), args, kwargs, fr)
+            return self.call_method(f, "__call__", args, kwargs, fr, node)   # collaborator object: boundary
         raise OutOfSubset(f"call of {f!r}")
 
     def bind_args(self, fnode, args, kwargs, fr_new, def_frame):
@@ -2082,6 +2108,8 @@ def snapshot(v, memo):
         return n
     if isinstance(v, VMap):
         n = VMap(v.present, v.val, v.kt, v.vt)
+        if getattr(v, "default_empty", False):
+            n.default_empty = True
         memo[id(v)] = n
         return n
     if isinstance(v, VDict):
